@@ -42,3 +42,29 @@ Definition match_bits (w : bits) (ns : list ascii) : option (bool * list (ascii 
 
 Definition match_bitpattern (w : bits) (pat : string) : option (bool * list (ascii * bits)) :=
   match_bits w (strip (list_ascii_of_string pat)).
+
+(* field_map: a map from field letter to the name of the field in the returned namedtuple.  Every
+   field letter must be a key (otherwise PyrtlError); the fields keep the order in which their letters
+   first appear in the pattern -- the order of the map's keys plays no role *)
+Fixpoint fm_lookup (fm : list (ascii * string)) (c : ascii) : option string :=
+  match fm with
+  | [] => None
+  | (k, nm) :: r => if Ascii.eqb k c then Some nm else fm_lookup r c
+  end.
+
+Definition match_bits_fm (w : bits) (ns : list ascii) (fm : list (ascii * string))
+  : option (bool * list (string * bits)) :=
+  match match_bits w ns with
+  | None => None
+  | Some (m, fs) =>
+    match all_some (map (fun cf => match fm_lookup fm (fst cf) with
+                                   | Some nm => Some (nm, snd cf)
+                                   | None => None
+                                   end) fs) with
+    | Some l => Some (m, l)
+    | None => None
+    end
+  end.
+
+Definition match_bitpattern_fm (w : bits) (pat : string) (fm : list (ascii * string)) :=
+  match_bits_fm w (strip (list_ascii_of_string pat)) fm.
